@@ -9,6 +9,7 @@ import (
 	"sync"
 
 	"verif/harness/core"
+	"verif/harness/drive/ph"
 	"verif/harness/drive/rm"
 )
 
@@ -485,6 +486,11 @@ func run(ctx *core.Ctx) error {
 	}
 	ctx.Ev.Set("model_transitions_of_program_graphs", totalEdges)
 	ctx.Ev.Set("model_transitions_replayed_on_real_code", covEdges)
+	// *Placeholder values (spec/file/Placeholder.tla): written by Put,
+	// WriteCompressed and in stream dictionaries, before and after Set
+	if err := ph.Run(ctx); err != nil {
+		return err
+	}
 	if ctx.Thorough() {
 		// extension beyond the listed properties: the ResourceManager protocol
 		// (spec/file/ResourceManager.tla); deviations are NOTE lines, not verdicts
@@ -509,6 +515,12 @@ type replayCase struct {
 }
 
 func replay(ctx *core.Ctx, raw json.RawMessage) error {
+	var kind struct {
+		Kind string `json:"kind"`
+	}
+	if json.Unmarshal(raw, &kind) == nil && kind.Kind == "placeholder" {
+		return ph.Replay(ctx, raw)
+	}
 	var c replayCase
 	if err := json.Unmarshal(raw, &c); err != nil {
 		return core.Infra("replay: %v", err)
@@ -580,5 +592,5 @@ func selfTest(ctx *core.Ctx) error {
 		return core.Infra("self-test: corrupted runs not singled out: %v", bad)
 	}
 	ctx.Logf("self-test (i): corrupted read / error flag / dropped call / modified argument rejected, intact runs accepted")
-	return nil
+	return ph.SelfTest(ctx)
 }
